@@ -776,6 +776,28 @@ func (e *Engine) continuation(wl *Workload, s *session, l *model.Log, pt *Point,
 			next = 1
 		}
 	}
+	// what recovery rebuilt (and possibly committed: a completed rotation, a re-created tail)
+	// must read back the same after a clean reopen, before anything else touches it
+	if rng.Intn(2) == 0 {
+		rs.base.Store(l)
+		rs.inflight.Store(nil)
+		s.close()
+		rs.base.Store(nil)
+		cands := []*model.Log{l}
+		rs.outer.Store(&cands)
+		if err := s.open(); err != nil {
+			return &failure{props: []string{"C03", "C01", "C02", "C04"}, class: "cont-reopen-right-after-recovery:" + errClass(err), desc: "clean reopen right after recovery failed: " + err.Error()}
+		}
+		rs.base.Store(l)
+		rs.phase.Store("cont")
+		if f := compare("after a clean reopen right after recovery"); f != nil {
+			if rs.hadTrunc.Load() {
+				f.props = append(f.props, "C04")
+			}
+			return f
+		}
+		e.C.Count("clean_reopens_right_after_recovery", 1)
+	}
 	// C02 chains: re-submit a prefix of the torn in-flight batch, as raft does after
 	// a restart, so the rest of its stale frames sit right behind the new commit.
 	if e.P.RetryPrefix && pt.InFlight != nil && pt.InFlight.Kind == "append" && len(pt.InFlight.Logs) > 0 &&
